@@ -190,6 +190,39 @@ func c13Families(tier string) []engine.Family {
 			t := gen.Tree(x, &gen.TreeOpts{MaxNodes: maxNodes, Leaves: leaves[:nLeaves], Keys: []string{"a", "b"}})
 			generic(x, t.Events(nil), "generic:tree")
 		}},
+		{Name: "generic-deep", Body: func(x *engine.Exec) {
+			// nesting 2..9 (the unfolder's scratch slots grow at 5 and 9), objects and arrays, with a sibling
+			// member after the deep one at a chosen level, so that an ancestor completes after its deep child
+			depth := 2 + x.Choose(8)
+			kind := x.Choose(3) // 0 objects, 1 arrays, 2 alternating
+			sibAt := x.Choose(depth)
+			var open, close []model.Event
+			for i := 0; i < depth; i++ {
+				isObj := kind == 0 || (kind == 2 && i%2 == 0)
+				if isObj {
+					open = append(open, model.ObjStart(-1, 0), model.Key(string(rune('a'+i))))
+				} else {
+					open = append(open, model.ArrStart(-1, 0))
+				}
+			}
+			for i := depth - 1; i >= 0; i-- {
+				isObj := kind == 0 || (kind == 2 && i%2 == 0)
+				if i == sibAt {
+					if isObj {
+						close = append(close, model.Key("k"), model.SInt(model.KInt8, 2))
+					} else {
+						close = append(close, model.SInt(model.KInt8, 2))
+					}
+				}
+				if isObj {
+					close = append(close, model.ObjEnd())
+				} else {
+					close = append(close, model.ArrEnd())
+				}
+			}
+			evs := append(append(open, model.SInt(model.KInt8, 1)), close...)
+			generic(x, evs, "generic:deep")
+		}},
 		{Name: "generic-scalars", Body: func(x *engine.Exec) {
 			ev := append(append([]model.Event{}, nums...), leaves...)[x.Choose(len(nums)+len(leaves))]
 			ctx := x.Choose(gen.NumContexts)
